@@ -10,6 +10,7 @@ mapped back to a named clause or to a line of /repo.
 import hashlib
 import os
 import re
+import sys
 
 from .rustscan import Source, Lost, CODE, STR, COMMENT
 
@@ -175,12 +176,12 @@ def parse_unit(path):
                     err('bad closure directive')
                 cur.closure = (m.group(1), m.group(2).strip())
             elif first == 'assert':
-                m = re.match(r'([\w.\-]+)\s*(?:\[([^\]]*)\])?\s*(after|before|loopend)(?:\[(\d+)\])?\s*(?:`(.*?)`)?\s*:\s*(.*)$', rest, re.S)
+                m = re.match(r'([\w.\-]+)\s*(?:\[([^\]]*)\])?\s*(after|before|loopend)(?:\[(\d+(?:/\d+)?)\])?\s*(?:`(.*?)`)?\s*:\s*(.*)$', rest, re.S)
                 if not m:
                     err('bad assert')
                 props = m.group(2).replace(',', ' ').split() if m.group(2) else list(cur.props)
                 c = Clause('assert', cur.qual + '.' + m.group(1), props, '')
-                anchor = (m.group(5), int(m.group(4))) if m.group(4) else m.group(5)
+                anchor = ((m.group(5),) + tuple(int(x) for x in m.group(4).split('/'))) if m.group(4) else m.group(5)
                 c.where, c.anchor = m.group(3), anchor
                 cur.clauses.append(c)
                 pending = ((lambda c: lambda t: setattr(c, 'text', t))(c), [m.group(6)])
@@ -233,13 +234,13 @@ def parse_unit(path):
                     fn.rewrites.append((rule, mm.group(1), mm.group(2), multi))
                 pending = (setter, [m.group(2)])
             elif first == 'insert':
-                m = re.match(r'(after|before|start|end|loopend|loopstart|exhaust)(?:\[(\d+)\])?\s*(?:`(.*?)`)?\s*:\s*(.*)$', rest, re.S)
+                m = re.match(r'(after|before|start|end|loopend|loopstart|loopbefore|loopafter|exhaust)(?:\[(\d+(?:/\d+)?)\])?\s*(?:`(.*?)`)?\s*:\s*(.*)$', rest, re.S)
                 if not m:
                     err('bad insert')
                 where, anchor = m.group(1), m.group(3)
                 if m.group(2):
-                    anchor = (anchor, int(m.group(2)))
-                if where in ('loopend', 'loopstart', 'exhaust'):
+                    anchor = (anchor,) + tuple(int(x) for x in m.group(2).split('/'))
+                if where in ('loopend', 'loopstart', 'loopbefore', 'loopafter', 'exhaust'):
                     anchor = int(m.group(2) or 0)
 
                 def setter(t, where=where, anchor=anchor, fn=cur):
@@ -590,9 +591,13 @@ def assemble(unit, canary=False):
 
 
 def find_unique(src, needle, a, b, what):
-    nth = None
+    """position of a textual anchor between a and b (comments skipped). `needle` is the text (which must then occur exactly
+    once), or (text, n): its n-th occurrence (1-based), or (text, n, m): its n-th occurrence of exactly m -- with m stated,
+    an occurrence that was reworded, removed or added elsewhere is a lost anchor instead of a silently shifted one."""
+    nth, total = None, None
     if isinstance(needle, tuple):
-        needle, nth = needle
+        total = needle[2] if len(needle) > 2 else None
+        needle, nth = needle[0], needle[1]
     hits = []
     start = a
     while True:
@@ -602,7 +607,11 @@ def find_unique(src, needle, a, b, what):
         if src.kind[j] != COMMENT:
             hits.append(j)
         start = j + 1
+    if os.environ.get('VERIF_PRINT_NTH') and nth is not None:
+        print('NTH\t%s\t%s\t%d\t%d' % (what, needle.replace('\n', '\\n'), nth, len(hits)), file=sys.stderr)
     if nth is not None:
+        if total is not None and len(hits) != total:
+            raise Lost(f'lost anchor: {what}: `{needle}` occurs {len(hits)} times, the unit addresses occurrence {nth} of {total}')
         if nth > len(hits):
             raise Lost(f'lost anchor: {what}: occurrence {nth} of `{needle}` not found ({len(hits)} present)')
         return hits[nth - 1]
@@ -610,6 +619,68 @@ def find_unique(src, needle, a, b, what):
         raise Lost(f'lost anchor: {what}: `{needle}` occurs {len(hits)} times in {os.path.basename(src.path)} '
                    f'lines {src.line_of(a)}-{src.line_of(b)}')
     return hits[0]
+
+
+_OPND = r'(?:\*?[A-Za-z_][\w.]*(?:\(\))?|\d+)'
+_FLIP = {'>=': '<=', '<=': '>=', '>': '<', '<': '>', '==': '=='}
+
+
+def anchor_variants(text):
+    """equivalent spellings of one line of code, used only to *locate* a proof hint or a named assertion when the line it
+    is attached to was reworded (the code that is verified is always the text in /repo): operands of one comparison
+    swapped, `x += n` written out, `a != b` as `!(a == b)`, `is_empty()` against `len()`, operands of a top-level `||`/`&&`
+    in an `if` swapped."""
+    out = []
+    for m in re.finditer(r'(?<![\w.)])(?<![-+*/%] )(' + _OPND + r') (>=|<=|>|<|==) (' + _OPND + r')(?![\w.(\[])(?! [-+*/%])', text):
+        out.append(text[:m.start()] + f'{m.group(3)} {_FLIP[m.group(2)]} {m.group(1)}' + text[m.end():])
+    for m in re.finditer(r'(?<![\w.)!])(' + _OPND + r') != (' + _OPND + r')(?![\w.(\[])', text):
+        out.append(text[:m.start()] + f'!({m.group(1)} == {m.group(2)})' + text[m.end():])
+    m = re.match(r'^(\s*)([A-Za-z_][\w.]*) ([-+])= (\d+|[A-Za-z_][\w.]*);$', text)
+    if m:
+        out.append(f'{m.group(1)}{m.group(2)} = {m.group(2)} {m.group(3)} {m.group(4)};')
+    for m in re.finditer(r'(!?)([A-Za-z_][\w.]*)\.is_empty\(\)', text):
+        out.append(text[:m.start()] + (f'{m.group(2)}.len() > 0' if m.group(1) else f'{m.group(2)}.len() == 0') + text[m.end():])
+    m = re.match(r'^(\s*(?:\} else )?if )([^|&{]+?) (\|\||&&) ([^|&{]+?)( \{)$', text)
+    if m:
+        out.append(f'{m.group(1)}{m.group(4)} {m.group(3)} {m.group(2)}{m.group(5)}')
+    return [v for v in dict.fromkeys(out) if v != text]
+
+
+def all_hits(src, needle, a, b):
+    hits, start = [], a
+    while True:
+        j = src.text.find(needle, start, b)
+        if j < 0:
+            return hits
+        if src.kind[j] != COMMENT:
+            hits.append(j)
+        start = j + 1
+
+
+def find_anchor(src, anchor, a, b, what):
+    """(position, length) of a positional anchor; a reworded line is found through `anchor_variants`"""
+    try:
+        return find_unique(src, anchor, a, b, what), len(anchor[0]) if isinstance(anchor, tuple) else len(anchor)
+    except Lost as e:
+        if isinstance(anchor, tuple):
+            # occurrence n of m: count the occurrences of the line and of its equivalent spellings together
+            if len(anchor) < 3:
+                raise
+            hits = sorted((j, len(v)) for v in [anchor[0]] + anchor_variants(anchor[0]) for j in all_hits(src, v, a, b))
+            if len(hits) != anchor[2] or len({j for j, _ in hits}) != len(hits):
+                raise
+            return hits[anchor[1] - 1]
+        if 'occurs 0 times' not in str(e):
+            raise
+        found = []
+        for v in anchor_variants(anchor):
+            try:
+                found.append((find_unique(src, v, a, b, what), len(v)))
+            except Lost:
+                pass
+        if len(found) != 1:
+            raise
+        return found[0]
 
 
 def emit_fn(asm, unit, fs, src, canary):
@@ -834,8 +905,7 @@ def emit_fn(asm, unit, fs, src, canary):
         ed.edits.append((bo + 1, bo + 1, '\n' + text + '\n', ('proof', fs.qual)))
     for where, anchor, text in fs.inserts:
         if where in ('after', 'before'):
-            j = find_unique(src, anchor, bo, bc + 1, f'insert in {fs.qual}')
-            alen = len(anchor[0]) if isinstance(anchor, tuple) else len(anchor)
+            j, alen = find_anchor(src, anchor, bo, bc + 1, f'insert in {fs.qual}')
             p = j + alen if where == 'after' else j
             ed.edits.append((p, p, '\n' + text + '\n', ('proof', fs.qual)))
         elif where == 'end':
@@ -850,8 +920,7 @@ def emit_fn(asm, unit, fs, src, canary):
                     raise Lost(f'lost anchor: assert {c.cid}: loop {n} not found')
                 pos = lps[n][3]
             else:
-                j = find_unique(src, c.anchor, bo, bc + 1, f'assert {c.cid}')
-                alen = len(c.anchor[0]) if isinstance(c.anchor, tuple) else len(c.anchor)
+                j, alen = find_anchor(src, c.anchor, bo, bc + 1, f'assert {c.cid}')
                 pos = j + alen if c.where == 'after' else j
             asm.clauses[c.cid] = c
             ed.edits.append((pos, pos, '\n proof { assert(\n', ('gen',)))
@@ -860,11 +929,11 @@ def emit_fn(asm, unit, fs, src, canary):
     # loops
     loops = src.loops(bo, bc)
     for where, anchor, text in fs.inserts:
-        if where in ('loopend', 'loopstart'):
+        if where in ('loopend', 'loopstart', 'loopbefore', 'loopafter'):
             if anchor >= len(loops):
                 raise Lost(f'lost anchor: {fs.qual} has {len(loops)} loops, insert addresses loop {anchor}')
             kw_start, kw, lbo, lbc = loops[anchor]
-            pos = lbc if where == 'loopend' else lbo + 1
+            pos = {'loopend': lbc, 'loopstart': lbo + 1, 'loopbefore': kw_start, 'loopafter': lbc + 1}[where]
             ed.edits.append((pos, pos, '\n' + text + '\n', ('proof', fs.qual)))
     for n in getattr(fs, 'fornext', []):
         # R11d: `for X in E { B }` over an iterator without a vstd for-loop specification
